@@ -11,6 +11,8 @@ for d in seeded/C*-*/; do
   [ "$n" = "C08-5" ] && extra="C16"
   [ "$n" = "C09-4" ] && extra="C10"
   [ "$n" = "C09-6" ] && extra="C10"
+  [ "$n" = "C06-7" ] && extra="C08"
+  [ "$n" = "C14-7" ] && extra="C09 C08"
   for chk in $id $extra; do
     r=$(MUT_LINES=1 MUT_TIMEOUT=${MUT_TIMEOUT:-1500} tools/mutcheck.sh $n $chk quick 2>&1)
     rc=$(echo "$r" | grep -o "rc=[0-9]*" | head -1 | cut -d= -f2)
